@@ -398,9 +398,9 @@ def _historical(ctx):
     us = UnitSplit(ctx)
     _, rels = rs.variables(us.fR)
     pe = [r for r in rels if r[1] == "percent_expected_vote"]
-    okr = bool(pe) and rs.equivalent(us.fN, rs.And(us.fN, ("rel", pe[0], frozenset({"lt"}))))[0]
+    okr = bool(pe) and rs.equivalent(us.fN, rs.And(us.fN, rs.Not(rs.compare(pe[0][1], pe[0][2], {"eq", "gt"}, never_missing=us.never_missing))))[0]
     ctx.ob("C10.R4.sibling", "CombinedDataHandler.get_units|nonreporting means percent_expected_vote < threshold", okr, us.f.where(),
-           "get_units: nonreporting <=> below the threshold (strict), so '>= threshold' is exactly the reporting side" if okr
+           "get_units: nonreporting <=> not at or above the threshold (below it, or missing), so '>= threshold' is exactly the reporting side" if okr
            else "get_units no longer splits at '>= threshold'")
     # every result column passed on is one that was hidden
     cols = sel[2]
